@@ -339,6 +339,7 @@ def run(ctx):
     if not seen:
         raise tlc.TlcError('no program emitted')
     check_shapes(ctx, quick)
+    check_data_accuracy(ctx, quick)
     check_large(ctx, quick)
     check_huge(ctx, quick)
 
@@ -531,6 +532,32 @@ def check_large(ctx, quick):
             bad.append('shape/ranks/size')
         for b_ in bad:
             ctx.violation('algebra:' + b_.split('/')[0], 'large tensor (d=%d, modes up to %d, ranks up to %d): %s differs from the core-by-core contraction' % (d, max(n), max(r), b_))
+
+
+def check_data_accuracy(ctx, quick):
+    """Relative accuracy on a data set, also with the optional rounding accuracy e_trunc: the error of truncate(Y, e_trunc)
+    on the data (mode-wise orthogonal rank-one terms, so the rounded tensor is known exactly)."""
+    rng = np.random.default_rng(ctx.seed + 31)
+    for t in range(20 if quick else 200):
+        d = int(rng.integers(2, 5))
+        n = [int(x) for x in rng.integers(2, 5, size=d)]
+        # A and B: rank-one tensors built from orthogonal vectors in every mode
+        Qs = [np.linalg.qr(rng.normal(size=(k, k)))[0] for k in n]
+        A = [Qs[k][:, 0].reshape(1, n[k], 1) * (3. if k == 0 else 1.) for k in range(d)]
+        B = [Qs[k][:, 1].reshape(1, n[k], 1) * (2.0 ** -10 if k == 0 else 1.) for k in range(d)]
+        Y = F.tt_add(A, B)
+        I = teneva.grid_flat(n)
+        I = np.vstack([I, I[:3]])
+        dA, dB = F.dense(A), F.dense(B)
+        yA = dA[tuple(I.T)]
+        yY = (dA + dB)[tuple(I.T)]
+        ctx.case(key=('data-accuracy', n, t), nontrivial=True)
+        e0 = teneva.accuracy_on_data(Y, I, yA)
+        ref0 = np.linalg.norm(yY - yA) / np.linalg.norm(yA)
+        e1 = teneva.accuracy_on_data(Y, I, yA, e_trunc=0.05)          # drops the 2^-10 component: the data are then reproduced
+        e2 = teneva.accuracy_on_data(Y, I, yY, e_trunc=1e-12)        # keeps everything
+        ok = abs(e0 - ref0) <= 1e-9 * ref0 and e1 <= 1e-9 and e2 <= 1e-9
+        ctx.check(ok, 'algebra:accuracy_on_data', 'accuracy_on_data: without rounding %r (dense %r), with e_trunc=0.05 %r (expected 0), with e_trunc=1e-12 against the full data %r (expected 0)' % (e0, ref0, e1, e2))
 
 
 def check_huge(ctx, quick):
